@@ -42,6 +42,12 @@ pub fn install_panic_hook() {
         };
         if msg.contains("unsafe precondition") || std::env::var("VERIF_PANIC_TRACE").is_ok() {
             eprintln!("PANIC at {}:{}: {}", file, line, msg);
+            if std::env::var("VERIF_PANIC_TRACE").is_ok() {
+                let bt = std::backtrace::Backtrace::force_capture().to_string();
+                for l in bt.lines().filter(|l| l.contains("/repo/src") || l.contains("scryer")) {
+                    eprintln!("    {}", l.trim());
+                }
+            }
         }
         LAST_PANIC.with(|p| {
             let mut p = p.borrow_mut();
